@@ -70,6 +70,11 @@ func (v Val) Bytes() []byte {
 		x ^= x << 17
 		b[i] = byte(x)
 	}
+	// a value never ends in a zero byte: stores through a memory mapping are recovered by diffing against the
+	// (zero) model, so a trailing zero would be invisible and the logical end of an open mmap file ambiguous
+	if b[len(b)-1] == 0 {
+		b[len(b)-1] = 0x5a
+	}
 	return b
 }
 
